@@ -15,6 +15,7 @@ import CompmechVerif.Gen.Panel.KPanel
 import CompmechVerif.Spec.Kinematics
 import CompmechVerif.Core.OpSpecTactics
 import CompmechVerif.Core.OpSpecLemmas
+import CompmechVerif.Spec.WholeMatrix
 import Mathlib.Tactic.FinCases
 import Mathlib.Data.Fintype.Basic
 
@@ -121,5 +122,131 @@ theorem k0y1y2_entry_symm_kpanel (P : PCtx K) (ha : P.a ≠ 0) (hb : P.b ≠ 0) 
     KPanel.fk0y1y2.entry ro co P = KPanel.fk0y1y2.entry co ro P.swap := by
   rw [k0y1y2_entry_eq_hessian_kpanel P ha hb hr hF, k0y1y2_entry_eq_hessian_kpanel P.swap ha hb hr hF]
   exact (hessian_swap P _ _ (kpanelOps P) P.F hF.symm _ _).symm
+
+
+/-! ### the whole matrix (loop nest of Model/PanelLoop.lean + `finalize_symmetric_matrix`)
+
+`I` : the one-dimensional integrals as a function of the series indices (any commutative interpretation; C10 ties it to
+the C tables).  For ANY series orders `m, n`, ANY placement `row0 = col0`, at the positions of ANY two degrees of freedom
+`(α, i, j)` and `(β, k, l)` — upper or lower triangle — the matrix handed to the user holds the energy Hessian of that
+pair; and it is symmetric. -/
+
+open Compmech.Asm in
+/-- the regenerated kernels have exactly the modelled loop nest, dof map, skip condition and section geometry -/
+theorem loop_nest_standard :
+    Plate.fk0.schema = LoopSchema.std 3 none ∧ Plate.fk0y1y2.schema = LoopSchema.stdYX 3 ∧
+    PlateW.fk0.schema = LoopSchema.std 1 none ∧ PlateW.fk0y1y2.schema = LoopSchema.stdYX 1 ∧
+    CPanel.fk0.schema = LoopSchema.std 3 none ∧ CPanel.fk0y1y2.schema = LoopSchema.stdYX 3 ∧
+    KPanel.fk0.schema = LoopSchema.std 3 (some 41) ∧ KPanel.fk0y1y2.schema = LoopSchema.std 3 (some 41) := by
+  decide
+
+open Compmech.Asm in
+theorem k0_matrix_plate (base : PCtx K) (I : Integrals K) (hI : I.Comm) (ha : base.a ≠ 0) (hb : base.b ≠ 0)
+    (hF : IsABD base.F) (m n row0 : Nat) {i k j l : Nat} (hi : i < m) (hk : k < m) (hj : j < n) (hl : l < n)
+    (α β : Fin 3) :
+    toFun (panelCoo 3 m n row0 Plate.fk0.entry base I) (row0 + 3 * (j * m + i) + α.val)
+        (row0 + 3 * (l * m + k) + β.val)
+      = hessian (ctxAt base I i k j l) .full .full (plateOps base) base.F (fld3 α) (fld3 β) := by
+  rw [panelCoo_entry 3 m n row0 _ base I hI
+    (fun ro co i k j l => k0_entry_symm_plate (ctxAt base I i k j l) ha hb hF ro co) hi hk hj hl]
+  exact k0_entry_eq_hessian_plate (ctxAt base I i k j l) ha hb hF α β
+
+open Compmech.Asm in
+theorem k0y1y2_matrix_plate (base : PCtx K) (I : Integrals K) (hI : I.Comm) (ha : base.a ≠ 0) (hb : base.b ≠ 0)
+    (hF : IsABD base.F) (m n row0 : Nat) {i k j l : Nat} (hi : i < m) (hk : k < m) (hj : j < n) (hl : l < n)
+    (α β : Fin 3) :
+    toFun (panelCooYX 3 m n row0 Plate.fk0y1y2.entry base I) (row0 + 3 * (j * m + i) + α.val)
+        (row0 + 3 * (l * m + k) + β.val)
+      = hessian (ctxAt base I i k j l) .full .sub (plateOps base) base.F (fld3 α) (fld3 β) := by
+  rw [panelCooYX_entry 3 m n row0 _ base I hI
+    (fun ro co i k j l => k0y1y2_entry_symm_plate (ctxAt base I i k j l) ha hb hF ro co) hi hk hj hl]
+  exact k0y1y2_entry_eq_hessian_plate (ctxAt base I i k j l) ha hb hF α β
+
+open Compmech.Asm in
+theorem k0_matrix_plate_w (base : PCtx K) (I : Integrals K) (hI : I.Comm) (ha : base.a ≠ 0) (hb : base.b ≠ 0)
+    (hF : IsABD base.F) (m n row0 : Nat) {i k j l : Nat} (hi : i < m) (hk : k < m) (hj : j < n) (hl : l < n)
+    (α β : Fin 1) :
+    toFun (panelCoo 1 m n row0 PlateW.fk0.entry base I) (row0 + 1 * (j * m + i) + α.val)
+        (row0 + 1 * (l * m + k) + β.val)
+      = hessian (ctxAt base I i k j l) .full .full (plateOps base) base.F (fld1 α) (fld1 β) := by
+  rw [panelCoo_entry 1 m n row0 _ base I hI
+    (fun ro co i k j l => k0_entry_symm_plate_w (ctxAt base I i k j l) ha hb hF ro co) hi hk hj hl]
+  exact k0_entry_eq_hessian_plate_w (ctxAt base I i k j l) ha hb hF α β
+
+open Compmech.Asm in
+theorem k0y1y2_matrix_plate_w (base : PCtx K) (I : Integrals K) (hI : I.Comm) (ha : base.a ≠ 0) (hb : base.b ≠ 0)
+    (hF : IsABD base.F) (m n row0 : Nat) {i k j l : Nat} (hi : i < m) (hk : k < m) (hj : j < n) (hl : l < n)
+    (α β : Fin 1) :
+    toFun (panelCooYX 1 m n row0 PlateW.fk0y1y2.entry base I) (row0 + 1 * (j * m + i) + α.val)
+        (row0 + 1 * (l * m + k) + β.val)
+      = hessian (ctxAt base I i k j l) .full .sub (plateOps base) base.F (fld1 α) (fld1 β) := by
+  rw [panelCooYX_entry 1 m n row0 _ base I hI
+    (fun ro co i k j l => k0y1y2_entry_symm_plate_w (ctxAt base I i k j l) ha hb hF ro co) hi hk hj hl]
+  exact k0y1y2_entry_eq_hessian_plate_w (ctxAt base I i k j l) ha hb hF α β
+
+open Compmech.Asm in
+theorem k0_matrix_cpanel (base : PCtx K) (I : Integrals K) (hI : I.Comm) (ha : base.a ≠ 0) (hb : base.b ≠ 0) (hr : base.r ≠ 0)
+    (hF : IsABD base.F) (m n row0 : Nat) {i k j l : Nat} (hi : i < m) (hk : k < m) (hj : j < n) (hl : l < n)
+    (α β : Fin 3) :
+    toFun (panelCoo 3 m n row0 CPanel.fk0.entry base I) (row0 + 3 * (j * m + i) + α.val)
+        (row0 + 3 * (l * m + k) + β.val)
+      = hessian (ctxAt base I i k j l) .full .full (cpanelOps base) base.F (fld3 α) (fld3 β) := by
+  rw [panelCoo_entry 3 m n row0 _ base I hI
+    (fun ro co i k j l => k0_entry_symm_cpanel (ctxAt base I i k j l) ha hb hr hF ro co) hi hk hj hl]
+  exact k0_entry_eq_hessian_cpanel (ctxAt base I i k j l) ha hb hr hF α β
+
+open Compmech.Asm in
+theorem k0y1y2_matrix_cpanel (base : PCtx K) (I : Integrals K) (hI : I.Comm) (ha : base.a ≠ 0) (hb : base.b ≠ 0) (hr : base.r ≠ 0)
+    (hF : IsABD base.F) (m n row0 : Nat) {i k j l : Nat} (hi : i < m) (hk : k < m) (hj : j < n) (hl : l < n)
+    (α β : Fin 3) :
+    toFun (panelCooYX 3 m n row0 CPanel.fk0y1y2.entry base I) (row0 + 3 * (j * m + i) + α.val)
+        (row0 + 3 * (l * m + k) + β.val)
+      = hessian (ctxAt base I i k j l) .full .sub (cpanelOps base) base.F (fld3 α) (fld3 β) := by
+  rw [panelCooYX_entry 3 m n row0 _ base I hI
+    (fun ro co i k j l => k0y1y2_entry_symm_cpanel (ctxAt base I i k j l) ha hb hr hF ro co) hi hk hj hl]
+  exact k0y1y2_entry_eq_hessian_cpanel (ctxAt base I i k j l) ha hb hr hF α β
+
+open Compmech.Asm in
+/-- every finalized panel stiffness matrix is symmetric -/
+theorem k0_matrix_symmetric {num : Nat} (entry : Fin num → Fin num → PCtx K → K) (base : PCtx K) (I : Integrals K)
+    (m n row0 r c : Nat) :
+    toFun (panelCoo num m n row0 entry base I) r c = toFun (panelCoo num m n row0 entry base I) c r :=
+  panelCoo_symmetric num m n row0 entry base I r c
+
+open Compmech.Asm in
+/-- conical panel: the matrix is the SUM over the 41 constant-radius sections of the energy Hessians of the sections
+(each with the radius of its middle and the matching width: `sectionBase`) -/
+theorem k0_matrix_kpanel (base : PCtx K) (I : Nat → Integrals K) (hI : ∀ sec, (I sec).Comm) (s : Nat)
+    (ha : base.a ≠ 0) (hb : ∀ sec, (sectionBase base s sec).b ≠ 0) (hr : ∀ sec, (sectionBase base s sec).r ≠ 0)
+    (hF : IsABD base.F) (m n row0 : Nat) {i k j l : Nat} (hi : i < m) (hk : k < m) (hj : j < n) (hl : l < n)
+    (α β : Fin 3) :
+    toFun (conePanelCoo s 3 m n row0 KPanel.fk0.entry base I) (row0 + 3 * (j * m + i) + α.val)
+        (row0 + 3 * (l * m + k) + β.val)
+      = ((List.range s).map fun sec =>
+          hessian (ctxAt (sectionBase base s sec) (I sec) i k j l) .sub .full (kpanelOps (sectionBase base s sec)) base.F
+            (fld3 α) (fld3 β)).sum := by
+  rw [conePanelCoo_entry s 3 m n row0 _ base I hI
+    (fun sec ro co i k j l => k0_entry_symm_kpanel (ctxAt (sectionBase base s sec) (I sec) i k j l) ha (hb sec) (hr sec)
+      hF ro co) hi hk hj hl]
+  refine congrArg List.sum (List.map_congr_left fun sec _ => ?_)
+  exact k0_entry_eq_hessian_kpanel (ctxAt (sectionBase base s sec) (I sec) i k j l) ha (hb sec) (hr sec) hF α β
+
+open Compmech.Asm in
+/-- conical panel: the matrix is the SUM over the 41 constant-radius sections of the energy Hessians of the sections
+(each with the radius of its middle and the matching width: `sectionBase`) -/
+theorem k0y1y2_matrix_kpanel (base : PCtx K) (I : Nat → Integrals K) (hI : ∀ sec, (I sec).Comm) (s : Nat)
+    (ha : base.a ≠ 0) (hb : ∀ sec, (sectionBase base s sec).b ≠ 0) (hr : ∀ sec, (sectionBase base s sec).r ≠ 0)
+    (hF : IsABD base.F) (m n row0 : Nat) {i k j l : Nat} (hi : i < m) (hk : k < m) (hj : j < n) (hl : l < n)
+    (α β : Fin 3) :
+    toFun (conePanelCoo s 3 m n row0 KPanel.fk0y1y2.entry base I) (row0 + 3 * (j * m + i) + α.val)
+        (row0 + 3 * (l * m + k) + β.val)
+      = ((List.range s).map fun sec =>
+          hessian (ctxAt (sectionBase base s sec) (I sec) i k j l) .sub .sub (kpanelOps (sectionBase base s sec)) base.F
+            (fld3 α) (fld3 β)).sum := by
+  rw [conePanelCoo_entry s 3 m n row0 _ base I hI
+    (fun sec ro co i k j l => k0y1y2_entry_symm_kpanel (ctxAt (sectionBase base s sec) (I sec) i k j l) ha (hb sec) (hr sec)
+      hF ro co) hi hk hj hl]
+  refine congrArg List.sum (List.map_congr_left fun sec _ => ?_)
+  exact k0y1y2_entry_eq_hessian_kpanel (ctxAt (sectionBase base s sec) (I sec) i k j l) ha (hb sec) (hr sec) hF α β
 
 end Compmech.Panel.C02
